@@ -165,6 +165,8 @@ pub enum Op {
     AddColNull { name: String, ty: Ty },
     DropCol { name: String },
     RenameCol { from: String, to: String },
+    /// alter_columns(cast_to): the column keeps its name and position, its data is rewritten
+    CastCol { name: String, to: Ty },
     UpdateConfig { key: String, value: Option<String> },
     Restore { version: u64 },
     CreateVectorIndex { partitions: usize, cosine: bool },
@@ -193,6 +195,7 @@ impl Op {
             Self::AddColNull { .. } => "add_col_null",
             Self::DropCol { .. } => "drop_col",
             Self::RenameCol { .. } => "rename_col",
+            Self::CastCol { .. } => "cast_col",
             Self::UpdateConfig { .. } => "update_config",
             Self::Restore { .. } => "restore",
             Self::CreateVectorIndex { .. } => "create_vector_index",
@@ -234,6 +237,7 @@ impl Op {
             Self::AddColNull { name, ty } => format!("add_column_null({}: {:?})", name, ty),
             Self::DropCol { name } => format!("drop_column({})", name),
             Self::RenameCol { from, to } => format!("rename_column({} -> {})", from, to),
+            Self::CastCol { name, to } => format!("alter_column({} cast to {:?})", name, to),
             Self::UpdateConfig { key, value } => format!("update_config({}={:?})", key, value),
             Self::Restore { version } => format!("restore({})", version),
             Self::CreateVectorIndex { partitions, cosine } => format!("create_index(vec, IVF_FLAT, partitions={}, metric={})", partitions, if *cosine { "cosine" } else { "l2" }),
@@ -361,6 +365,9 @@ pub async fn exec_op(ctx: &Ctx, ds: &mut Dataset, st: &TableState, op: &Op) -> R
         Op::RenameCol { from, to } => {
             ds.alter_columns(&[lance::dataset::ColumnAlteration::new(from.clone()).rename(to.clone())]).await
         }
+        Op::CastCol { name, to } => {
+            ds.alter_columns(&[lance::dataset::ColumnAlteration::new(name.clone()).cast_to(to.arrow())]).await
+        }
         Op::UpdateConfig { key, value } => {
             match value {
                 Some(v) => {
@@ -475,6 +482,15 @@ pub fn model_apply(st: &mut TableState, op: &Op, history: &BTreeMap<u64, TableSt
                 r.remove(i);
             }
             st.indices.retain(|ix| &ix.column != name);
+            Ok(())
+        }
+        Op::CastCol { name, to } => {
+            let i = st.col(name).ok_or("no such column")?;
+            // lance allows integer <-> integer (values here always fit)
+            if !matches!((st.cols[i].ty, *to), (Ty::I64, Ty::I32) | (Ty::I32, Ty::I64)) {
+                return Err("cast not modelled".into());
+            }
+            st.cols[i].ty = *to;
             Ok(())
         }
         Op::RenameCol { from, to } => {
